@@ -428,8 +428,8 @@ func (in *Interp) exec(t *rapid.T, inv *Invocation, body []*Stmt, where string, 
 							copy(in.env.set, savedSet)
 						}
 						// plain defer (no recover): classify how this action try ended
-						if inv.unwinding == "skip" && len(inv.Draws) == drawsBefore {
-							inv.actTries++
+						if !completed && inv.unwinding != "fatal" && len(inv.Draws) == drawsBefore {
+							inv.actTries++ // skipped without completing a draw (own Skip, or a generator giving up)
 						} else {
 							inv.actTries = 0
 						}
